@@ -304,19 +304,20 @@ func errClass(err error) string {
 // ---------------------------------------------------------------- replay of a GeomOps behaviour
 
 type gAction struct {
-	Op    string          `json:"op"`
-	To    int             `json:"to"`
-	Part  json.RawMessage `json:"part"`
-	Part2 json.RawMessage `json:"part2"`
-	Empty bool            `json:"empty"`
-	Pos   int             `json:"pos"`
-	Srid  int             `json:"srid"`
-	V     json.RawMessage `json:"v"`
-	L     string          `json:"l"`
-	Wl    string          `json:"wl"`  // pushbad: the layout of the misfit part ("" = the default choice)
-	Rep   *flatRep        `json:"rep"` // newflat: Deflate(v), computed by the model
-	How   string          `json:"how"`  // setself: "rev" or "rot"
-	Room  bool            `json:"room"` // newflat: the slices handed over have capacity behind their length
+	Op      string          `json:"op"`
+	To      int             `json:"to"`
+	Part    json.RawMessage `json:"part"`
+	Part2   json.RawMessage `json:"part2"`
+	Empty   bool            `json:"empty"`
+	Pos     int             `json:"pos"`
+	Srid    int             `json:"srid"`
+	V       json.RawMessage `json:"v"`
+	L       string          `json:"l"`
+	Wl      string          `json:"wl"`  // pushbad: the layout of the misfit part ("" = the default choice)
+	Rep     *flatRep        `json:"rep"` // newflat: Deflate(v), computed by the model
+	How     string          `json:"how"` // setself: "rev" or "rot"
+	Room    bool            `json:"room"`
+	NilEnds bool            `json:"nilends"` // newflat (MultiPoint without empty members): the ends option is passed, with a nil slice // newflat: the slices handed over have capacity behind their length
 }
 
 type flatRep struct {
@@ -328,7 +329,7 @@ type flatRep struct {
 type gCase struct {
 	K    string    `json:"k"`
 	L    string    `json:"l"`
-	L2   string    `json:"l2"` // layout of the second object when it differs from the first one's
+	L2   string    `json:"l2"`  // layout of the second object when it differs from the first one's
 	Sto  bool      `json:"sto"` // record the storage projection of both objects after every step (C16)
 	Hist []gAction `json:"hist"`
 }
@@ -466,7 +467,7 @@ func badPart(k, l, wrong string, empty bool) geom.T {
 }
 
 // newFlat builds a geometry of kind k through the New<Kind>Flat constructor from the representation the model computed.
-func newFlat(k string, l geom.Layout, r *flatRep, room bool) geom.T {
+func newFlat(k string, l geom.Layout, r *flatRep, room, nilEnds bool) geom.T {
 	spare := 0
 	if room {
 		spare = 8
@@ -495,6 +496,9 @@ func newFlat(k string, l geom.Layout, r *flatRep, room bool) geom.T {
 	case "MLS":
 		return geom.NewMultiLineStringFlat(l, flat, ints(r.Ends))
 	case "MPT":
+		if nilEnds {
+			return geom.NewMultiPointFlat(l, flat, geom.NewMultiPointFlatOptionWithEnds(nil))
+		}
 		if !room && l.Stride() > 0 && len(r.Ends)*l.Stride() == len(flat) {
 			return geom.NewMultiPointFlat(l, flat) // no empty member: the constructor derives the ends itself
 		}
@@ -559,7 +563,7 @@ func geomopsHandler(raw json.RawMessage) map[string]any {
 			case "pushbad":
 				errc = errClass(push(o[a.To], badPart(c.K, c.L, a.Wl, a.Empty)))
 			case "newflat":
-				o[a.To] = newFlat(c.K, o[a.To].Layout(), a.Rep, a.Room)
+				o[a.To] = newFlat(c.K, o[a.To].Layout(), a.Rep, a.Room, a.NilEnds)
 			case "reverse":
 				reverse(o[a.To])
 			case "swap":
